@@ -22,6 +22,7 @@ func verifAssertInt(cond bool) {}
 //@   props C13
 //@   mode bv
 //@   inline
+//@   modifies b[*]
 //@   ensures len(result) >= len(b) + 1 && len(result) <= len(b) + 9
 
 // the decoder never indexes out of range, for any bytes
